@@ -45,6 +45,13 @@ def extract(crate_dir='/repo', crate='multiqueue2', config='dev', out=None, tag=
         out = os.path.join(WORK, 'facts-%s-%s-%d.json' % (tag, config, os.getpid()))
     if os.path.exists(out):
         os.remove(out)
+    # fact files of runs that were interrupted before they could remove theirs
+    for old in glob.glob(os.path.join(WORK, 'facts-*-*-*.json')):
+        try:
+            if time.time() - os.path.getmtime(old) > 1800:
+                os.remove(old)
+        except OSError:
+            pass
     env = dict(os.environ)
     env.update({
         'LD_LIBRARY_PATH': os.path.join(sysroot(), 'lib') + ':' + env.get('LD_LIBRARY_PATH', ''),
